@@ -551,6 +551,75 @@ fn main() {
         }
     });
     sink.merge(s3);
+    // (5) "nothing for any other string": every string of length <= 5 over the alphabet registry names are made of
+    //     (A-Z, 0-9, _), bare and behind the TLS_ prefix [thorough: length 6 bare]; a lookup that goes through a
+    //     lossy key (a 32-bit hash of the name, a truncated or case-folded name) answers for some of them
+    {
+        const AB: &[u8] = b"ABCDEFGHIJKLMNOPQRSTUVWXYZ0123456789_";
+        let thorough = run.tier == Tier::Thorough;
+        let shards: Vec<(usize, usize)> = (0..AB.len()).flat_map(|a| (0..AB.len()).map(move |b| (a, b))).collect();
+        let ss = par_run(run.threads, shards.len(), |i, sink| {
+            let (a, b) = shards[i];
+            let mut n = 0u64;
+            let mut probe = |sink: &mut Sink, q: &[u8]| {
+                let q = std::str::from_utf8(q).unwrap_or("");
+                n += 1;
+                if TlsCipherSuite::from_name(q).is_some() || <&TlsCipherSuite>::try_from(q).is_ok() {
+                    for (k, w) in check_name_query(&cx, q) {
+                        sink.violation(format!("name {:?} {}", q, k), w, json!({"kind":"name","query":q}));
+                    }
+                }
+            };
+            // strings that start with the two letters of this shard, lengths 2..=max; shard (0, 0) also does lengths 0 and 1
+            let maxlen = if thorough { 6 } else { 5 };
+            let mut buf: Vec<u8> = Vec::with_capacity(16);
+            let mut pre: Vec<u8> = b"TLS_".to_vec();
+            if i == 0 {
+                probe(sink, b"");
+                for &c in AB {
+                    probe(sink, &[c]);
+                    probe(sink, &[b'T', b'L', b'S', b'_', c]);
+                }
+            }
+            for len in 2..=maxlen {
+                let mut idx = vec![0usize; len - 2];
+                loop {
+                    buf.clear();
+                    buf.push(AB[a]);
+                    buf.push(AB[b]);
+                    buf.extend(idx.iter().map(|&k| AB[k]));
+                    probe(sink, &buf);
+                    if len <= 5 {
+                        pre.truncate(4);
+                        pre.extend_from_slice(&buf);
+                        probe(sink, &pre);
+                    }
+                    let mut p = idx.len();
+                    loop {
+                        if p == 0 {
+                            break;
+                        }
+                        p -= 1;
+                        idx[p] += 1;
+                        if idx[p] < AB.len() {
+                            break;
+                        }
+                        idx[p] = 0;
+                        if p == 0 {
+                            p = usize::MAX;
+                            break;
+                        }
+                    }
+                    if idx.is_empty() || p == usize::MAX {
+                        break;
+                    }
+                }
+            }
+            sink.evals += n;
+            sink.bump("short strings over the name alphabet", n);
+        });
+        sink.merge(ss);
+    }
     let judged = sink.hist.get(&("name tokens", "judged")).copied().unwrap_or(0);
     if sink.viol.is_empty() && (judged < 300 || sink.hist.get(&("id lookup", "listed")).copied().unwrap_or(0) < 300) {
         machinery_failure(run.prop, "vacuous: fewer than 300 suites judged");
@@ -559,7 +628,7 @@ fn main() {
     cov.insert("exhaustive".into(), json!(true));
     cov.insert("registry_rows".into(), json!(cx.rows.len()));
     cov.insert("rule".into(), json!(
-        "all 65536 ids through 4 lookup routes (listed ids: all 10 columns + derived sizes against an independent reading of scripts/tls-ciphersuites.txt; name-token agreement); all registry names plus every proper prefix, single-character substitution (4-letter alphabet), deletion, appended/prepended character, case change and alias-style respelling (SSL_/tls_/no prefix, other separators, OpenSSL-like abbreviations, surrounding blanks) through both name lookups; committed snapshot of today's assignments. Non-trivial: ids that are listed or adjacent to a listed id; every name query"));
+        "all 65536 ids through 4 lookup routes (listed ids: all 10 columns + derived sizes against an independent reading of scripts/tls-ciphersuites.txt; name-token agreement); all registry names plus every proper prefix, single-character substitution (4-letter alphabet), deletion, appended/prepended character, case change and alias-style respelling (SSL_/tls_/no prefix, other separators, OpenSSL-like abbreviations, surrounding blanks) through both name lookups; every string of length <= 5 [6] over the 37-letter alphabet of registry names, bare and behind TLS_, through both name lookups (expected answer: nothing); committed snapshot of today's assignments. Non-trivial: ids that are listed or adjacent to a listed id; every name query"));
     let code = run.finish(
         &sink,
         cov,
